@@ -998,9 +998,11 @@ class Engine:
             return
         # 2. inlining
         callee = self.F.fn(ci['rpath']) if ci['rlocal'] else None
-        if callee is None and ci.get('trait') in self.F.traits and not ci.get('rlocal'):
+        if callee is None and not ci.get('rlocal') and (ci.get('trait') in self.F.traits or (
+                ci.get('trait') and any(g.get('k') == 'param' for g in (ci.get('gargs') or [])[:1]))):
             # a call on a generic `Self` / `E: Trait` inside a provided trait method or a generic helper: which type the
-            # parameter stands for is known from the instance this frame was inlined as
+            # parameter stands for is known from the instance this frame was inlined as (also for a foreign trait the
+            # crate implements - `F: Future` in a private helper that polls a stored future of the crate)
             callee, sub = self._devirtualise(st, frame, ci)
             if callee is not None and self._may_inline(st, ci, callee):
                 st.pending_subst = sub
